@@ -62,6 +62,7 @@ void harness(void)
 	sqfs_u8 *odb = NULL, *ofb = NULL, vs, vd = 0, vf = 0;
 	sqfs_u64 cur_block = verif_nd_u64("current_block");
 	sqfs_u32 cur_frag = verif_nd_u32("current_frag_index");
+	sqfs_u32 cur_word = verif_nd_u32("current_block_word");
 	bool order = verif_nd_bool("order");
 	unsigned calls0;
 	long live0;
@@ -89,6 +90,7 @@ void harness(void)
 	o->block_size = BS;
 	o->current_block = cur_block;
 	o->current_frag_index = cur_frag;
+	o->current_block_word = cur_word;
 	o->data_block = NULL;
 	o->data_blk_size = HAVE_DB ? DBS : verif_nd_size("stale_size");
 	o->frag_block = NULL;
@@ -122,7 +124,8 @@ void harness(void)
 		     o->frag_tbl == (sqfs_frag_table_t *)ftbl &&
 		     o->cmp == (sqfs_compressor_t *)cmp && o->file == (sqfs_file_t *)file &&
 		     o->block_size == BS && o->current_block == cur_block &&
-		     o->current_frag_index == cur_frag && o->data_block == odb &&
+		     o->current_frag_index == cur_frag &&
+		     o->current_block_word == cur_word && o->data_block == odb &&
 		     o->frag_block == ofb && w->scratch[ks] == vs, C19_OB("frame"));
 	if (HAVE_DB)
 		VERIF_ASSERT(o->data_blk_size == DBS && odb[kd] == vd, C19_OB("frame"));
@@ -155,7 +158,8 @@ void harness(void)
 			     VERIF_RW_OK(c, sizeof(sqfs_data_reader_t) + BS),
 			     C19_OB("fresh"));
 		VERIF_ASSERT(c->block_size == BS && c->current_block == cur_block &&
-			     c->current_frag_index == cur_frag && cs[ks] == vs,
+			     c->current_frag_index == cur_frag &&
+			     c->current_block_word == cur_word && cs[ks] == vs,
 			     C19_OB("fresh"));
 		VERIF_ASSERT(c->file == o->file && c->cmp == o->cmp, C19_OB("fresh"));
 		VERIF_ASSERT(file->base.refcount == frc + 1 &&
